@@ -84,6 +84,34 @@ def directed(rng, tier):
             items.append({"id": "brd%d_%d" % (d, extra), "module": m,
                           "script": [INST] + [{"op": "call", "inst": 1, "export": "t", "args": [arg("i64", 0x1122334455667788), arg("i32", c)]}
                                               for c in (0, 1, 0x80000000)]})
+    # (b2) a branch that targets the label of an IF with a result, from inside either arm, with extra operands
+    #      below the carried value; also br_table and br_if to that label, and nested in a block
+    for extra in (0, 1, 3):
+        for how in ("br", "br_if", "br_table"):
+            ex = [["i32.const", b32(500 + j)] for j in range(extra)]
+            dr = [["drop"]] * extra
+            def arm(v):
+                a = list(ex) + [["i32.const", b32(v)]]
+                if how == "br":
+                    a += [["br", 0]]
+                elif how == "br_if":
+                    a += [["local.get", 1], ["br_if", 0]] + [["drop"]] + dr + [["i32.const", b32(v + 1)]]
+                else:
+                    a += [["local.get", 1], ["br_table", [0, 1, 0], 0]]
+                return a
+            body = [["i32.const", b32(9000)],                 # an operand below the whole construct
+                    ["block", "i32"],
+                    ["i32.const", b32(70)],                   # operand below the if inside the block
+                    ["local.get", 0],
+                    ["if", "i32"]] + arm(42) + [["else"]] + arm(77) + [["end"],
+                    ["i32.add"],
+                    ["end"],
+                    ["i32.add"], ["end"]]
+            m = {"types": [{"p": ["i32", "i32"], "r": ["i32"]}], "funcs": [{"type": 0, "locals": [], "body": body}],
+                 "exports": [{"name": "t", "kind": "func", "idx": 0}]}
+            items.append({"id": "ifbr_%s_%d" % (how, extra), "module": m,
+                          "script": [INST] + [{"op": "call", "inst": 1, "export": "t", "args": [arg("i32", c), arg("i32", k)]}
+                                              for c in (0, 1) for k in (0, 1, 2, 7)]})
     # (c) locals: zero-initialised, any number and type; params keep the arguments; set/tee visible
     for nloc in ([0, 3, 40] if tier == "quick" else [0, 1, 3, 17, 40, 200]):
         types = [rng.choice(["i32", "i64", "f32", "f64"]) for _ in range(nloc)]
